@@ -141,6 +141,22 @@ def run(ctx, replay=None):
         for _ in range(depth):
             nodes = [('S', b'', b'', [(b'', 'b', b'Sec')], nodes, b'', b'Sec', b'')]
         cases.append((0, 0, t1, nodes))
+    # directed: an unregistered (ignored / default-handled) section after a registered sibling: scopes inside it
+    def sect(name, arg, body):
+        return ('S', b'', b'', [(b'', 'b', name)] + ([(b' ', 'b', arg)] if arg else []), body, b'', name, b'')
+    for fl, dc in ((2, 0), (0, 1), (3, 1)):
+        for inner in (b'TTL', b'Listen', b'IPv4'):
+            cases.append((fl, dc, t0, [sect(b'Domain', b'x', []), sect(b'Foo', b'', [('D', b' ', b'', [(b'', 'b', inner), (b' ', 'b', b'1')])])]))
+            cases.append((fl, dc, t0, [sect(b'Domain', b'x', [sect(b'Host', b'h', []), sect(b'Bar', b'y', [('D', b'', b'', [(b'', 'b', inner), (b' ', 'b', b'1')])])])]))
+    # directed: every string up to length 4 (5) over "-.01a" as an integer, a floating point and a boolean argument,
+    # and boolean look-alikes, so that _is_str_number/_is_str_bool are compared with the grammar through the real parser
+    forms = [bytes(p) for n in range(0, 5 if quick else 6) for p in itertools.product(b'-.01a', repeat=n)]
+    forms += [randcase(rng, w) + sfx for w in BOOLS_T + BOOLS_F + NOTBOOL for sfx in (b'', b'x', b's')] + INTS + FLOATS + NOTNUM
+    for f in forms:
+        if b'"' in f or b'\\' in f:
+            continue
+        for o in (b'I', b'F', b'B'):
+            cases.append((0, 0, t1, [('D', b'', b'', [(b'', 'b', o), (b' ', 'd0', f)])]))
     spec_ops = [enc_aconf_doc(*c) for c in cases]
     sl, err = run_model(ctx, spec_ops)
     if err:
